@@ -114,7 +114,10 @@ func richCache(cs *Case, hosts []HostNode) (*Pop, *Resolved, *cdi.Cache, string)
 	}
 	p := genPop(cs.R, root, PopOpt{Rich: true, Hosts: real}).DropTwins() // (C02 rewrites files)
 	p.Write()
-	cache, _ := cdi.NewCache(cdi.WithSpecDirs(p.Conf...), cdi.WithAutoRefresh(false))
+	// (the caller's directory slice is the caller's: it is reused for something else afterwards)
+	o, reuse := withDirs(p.Conf)
+	cache, _ := cdi.NewCache(o, cdi.WithAutoRefresh(false))
+	reuse()
 	return p, p.Resolve(), cache, root
 }
 
